@@ -451,7 +451,15 @@ fn lin_strategy(t: usize, lo: i64, hi: i64, unit: i64, name: &str) -> impl Strat
     _ => (lo, hi),
   };
   let (c_lo, c_hi) = (c_lo.clamp(lo, hi), c_hi.clamp(lo, hi));
-  let o = prop_oneof![6 => lo..=hi, 2 => lo..=(lo + 40.min(hi - lo)), 2 => (hi - 40.min(hi - lo))..=hi, 1 => c_lo..=c_hi];
+  // origins next to the reform-era seams of the lunar month table (0025-02-17 is day 8,813, 0240-02-10 day 87,334):
+  // stepping a lunar day or hour through lunar months assumes that the months tile the day line
+  let (s1, s2): ((i64, i64), (i64, i64)) = match name {
+    "LunarDay" => ((8813 - 70, 8813 + 70), (87334 - 70, 87334 + 70)),
+    "LunarHour" => (((8813 - 3) * 86400, (8813 + 3) * 86400), ((87334 - 3) * 86400, (87334 + 3) * 86400)),
+    _ => ((lo, hi), (lo, hi)),
+  };
+  let (s1, s2) = ((s1.0.clamp(lo, hi), s1.1.clamp(lo, hi)), (s2.0.clamp(lo, hi), s2.1.clamp(lo, hi)));
+  let o = prop_oneof![12 => lo..=hi, 4 => lo..=(lo + 40.min(hi - lo)), 4 => (hi - 40.min(hi - lo))..=hi, 2 => c_lo..=c_hi, 1 => s1.0..=s1.1, 1 => s2.0..=s2.1];
   // second-based units: steps of whole days +- a few seconds (the day carry of the clock arithmetic)
   let dayish = matches!(name, "SolarTime" | "SixtyCycleHour");
   // a few much longer steps for the slow steppers (a shortcut for big n is where a stepping bug would hide)
